@@ -288,6 +288,17 @@ func (ex *Exec) mapDelete(st *State, mt types.Type, m, k *Term) {
 	ex.set(st, dom, Store(d, m, Store(Select(d, m), k, TFalse)))
 }
 
+// mapClear: clear(m) empties the domain (a no-op on a nil map, whose domain is already empty).
+func (ex *Exec) mapClear(st *State, mt types.Type, m *Term) {
+	dom, _, ln, ks, _ := ex.mapComps(mt)
+	ds := ArraySort(SRef, ArraySort(ks, SBool))
+	d := ex.get(st, dom, ds)
+	lc := ex.get(st, ln, ArraySort(SRef, SInt))
+	empty := ex.ctx.ConstArray(ks, SBool, TFalse)
+	ex.set(st, ln, Store(lc, m, IntLit(0)))
+	ex.set(st, dom, Store(d, m, empty))
+}
+
 func (ex *Exec) mapLen(st *State, mt types.Type, m *Term) *Term {
 	_, _, ln, _, _ := ex.mapComps(mt)
 	lc := ex.get(st, ln, ArraySort(SRef, SInt))
